@@ -107,7 +107,7 @@ func C02(r *core.Run) int {
 	cases := specgen.ResponseCases(r.Seed, n)
 	cases = append(cases, specgen.SchemaCases(r.Seed, n/4, false)...)
 	for _, c := range specgen.ExtraCases() {
-		if strings.HasPrefix(c.ID, "X=shared-response-") {
+		if strings.HasPrefix(c.ID, "X=shared-response-") || strings.Contains(c.ID, "-response-in-one-operation") {
 			cases = append(cases, c)
 		}
 	}
